@@ -1,14 +1,17 @@
 #!/usr/bin/env python3
-"""tools/seedsweep_merge.py <sweep.jsonl>: write the results of tools/seedsweep.py into seeded/<id>/meta.json.
+"""tools/seedsweep_merge.py <sweep.jsonl>…: write the results of tools/seedsweep.py into seeded/<id>/meta.json.
 The previous `detected` block is kept under `detected_earlier` (a list, oldest first); `detected` becomes the
 result of the sweep (which commit of /repo, which tier caught it, whether a concrete failing input was reported)."""
 import sys, json, os
 V = os.path.dirname(os.path.dirname(os.path.abspath(__file__)))
 last = {}
-for l in open(sys.argv[1]):
-    l = l.strip()
-    if l:
-        r = json.loads(l); last[r["seeded_id"]] = r
+for fn in sys.argv[1:]:                      # several sweep files: a later record replaces an earlier one,
+    for l in open(fn):                       # except that a record whose patch applied is never replaced by one whose patch did not
+        l = l.strip()
+        if l:
+            r = json.loads(l)
+            if r["seeded_id"] in last and last[r["seeded_id"]].get("patch_applies") and not r.get("patch_applies"): continue
+            last[r["seeded_id"]] = r
 for sid, r in sorted(last.items()):
     p = os.path.join(V, "seeded", sid, "meta.json")
     if not os.path.exists(p): continue
